@@ -721,6 +721,7 @@ impl World {
                     if let Some((op, id, _)) = parse_frame(m) {
                         if op == 4 { self.wire_push[e] += 1; }
                         if op == 6 { self.wire_dgram[e] += 1; }
+                        let reused_before = self.reused;
                         if (op == 0 || op == 5) && self.seen_ids.contains(&id) {
                             self.reused = true;
                         }
@@ -765,6 +766,22 @@ impl World {
                             _ => { self.bind_wire[e].remove(&id); }
                         }
                         if op == 0 {
+                            // C07: an endpoint never proposes an id it already uses (the shadows hold only
+                            // ids that ARE in use at e: a stream established and held, another request of
+                            // its own that is still unanswered — a rejected request may retry with the id
+                            // it has just been refused)
+                            let this_req = if t[0] == "open" { t[1].parse::<u64>().ok() } else { None }.or_else(|| parse_frame(m).filter(|(_, _, p)| p.len() >= 6)
+                                .and_then(|(_, _, p)| self.open_ports.get(&u64::from(u16::from_be_bytes([p[4], p[5]]))).copied())
+                                .filter(|(oe, _)| *oe == e).map(|(_, req)| req));
+                            let other_pending = self.pend[e].get(&id).is_some_and(|r| this_req.is_some_and(|q| q != *r));
+                            if clean && !lagging && !reused_before && (self.est[e].contains_key(&id) || other_pending) {
+                                let how = if self.est[e].contains_key(&id) { "an established stream its application still holds" } else { "another open request of its own that is still unanswered" };
+                                let msg = format!("endpoint {} proposed flow id {id:08x} in a Connect (at `{}`) while it uses that id for {how}", NAMES[e], t.join(" "));
+                                // (recorded under its own key: the id was in use, not released and drawn again)
+                                if !self.fails.iter().any(|f| f.0 == "C07" && f.1 == "connect-id-in-use") {
+                                    self.fails.push(("C07".into(), "connect-id-in-use".into(), msg));
+                                }
+                            }
                             if let Some((_, _, p)) = parse_frame(m) {
                                 if p.len() >= 6 {
                                     let port = u64::from(u16::from_be_bytes([p[4], p[5]]));
@@ -1031,8 +1048,19 @@ fn run_case(r: &mut Rng, focus: Focus, len: usize) -> World {
     // large random numbers (reuse of an id while frames of its previous incarnation are in flight is
     // the known protocol-level finding recorded under C06)
     let small_ids = matches!(focus, Focus::C06 | Focus::C07 | Focus::C10 | Focus::C15) && r.chance(2, 3) && !burst;
+    // a third kind of script: pairwise distinct small ids (so no id is ever reused) with draws of the
+    // reserved id 0 sprinkled in — what the generator does with a zero draw while low ids are in use
+    let zero_ids = !small_ids && matches!(focus, Focus::C07 | Focus::C10) && r.chance(1, 2) && !burst;
     for e in 0..2 {
-        let ks: Vec<String> = (0..24).map(|_| if small_ids { s(r.range(0, 4)) } else { s(r.range(1, 0xffff_ffff)) }).collect();
+        let ks: Vec<String> = if zero_ids {
+            let mut ids: Vec<u64> = (1..=24).map(|k| k + 24 * e as u64).collect();
+            for k in (1..ids.len()).rev() { let j = r.below(k as u64 + 1) as usize; ids.swap(k, j); }
+            // (id 1 early, so that it is in use when a zero is drawn)
+            if e == 0 { if let Some(p) = ids.iter().position(|&x| x == 1) { ids.swap(0, p); } }
+            ids.iter().enumerate().map(|(k, id)| if k > 0 && r.chance(1, 3) { s(0) } else { s(*id) }).collect()
+        } else {
+            (0..24).map(|_| if small_ids { s(r.range(0, 4)) } else { s(r.range(1, 0xffff_ffff)) }).collect()
+        };
         let mut t = vec![s("rng")];
         t.extend(ks);
         w.stim(e, &t);
